@@ -339,18 +339,19 @@ func c12Thresholds(c *Ctx) {
 		d := "call<*>(slice(obj(alloc<[32]byte>, store(self, call<golang.org/x/crypto/blake2b.Sum256>(slice(p0, 0, bin<->(len(p0), 8))))), 0, none), call<(encoding/binary.littleEndian).Uint64>(load(global<encoding/binary.LittleEndian>), slice(p0, bin<->(len(p0), 8), none)))"
 		n1, n2, n3 := 0, 0, 0
 		var diff *ssa.Function
-		for _, e := range ana.Exits(fn) {
-			if e.Panic {
-				es := plainEdges(edgesMatching(b, "bin<<>(len(p0), 8)"))
-				r.Check(exitMustPass(fn, e, es), "C12.thresholds.score-length-guard", c.ipos(e.Instr), "Score panics only for messages shorter than a nonce")
+		// the exits of Score, looking through a tail call into a helper that does the saturated division
+		// (results in Score's vocabulary: the helper's parameters are bound to the arguments)
+		for _, v := range c.vexits(b) {
+			if v.Panic {
+				r.Check(c.vpasses(v, "bin<<>(len(p0), 8)"), "C12.thresholds.score-length-guard", c.vpos(v), "Score panics only for messages shorter than a nonce")
 				continue
 			}
-			t := b.Of(e.Results[0], e.Instr)
+			t := v.Results[0]
 			switch {
 			case matches("bin</>(call<(*math/big.Int).Uint64>("+d+"), conv<uint64>(len(p0)))", t):
 				n1++
 				diff = calleeOf(t.Arg(0).Arg(0))
-				r.Check(exitMustPass(fn, e, plainEdges(edgesMatching(b, "call<(*math/big.Int).IsUint64>("+d+")"))), "C12.thresholds.score-fast", c.ipos(e.Instr), "fast path: d fits 64 bits → d/len")
+				r.Check(c.vpasses(v, "call<(*math/big.Int).IsUint64>("+d+")"), "C12.thresholds.score-fast", c.vpos(v), "fast path: d fits 64 bits → d/len")
 			case matches("call<(*math/big.Int).Uint64>(obj("+d+", call<(*math/big.Int).Quo>(self, self, call<math/big.NewInt>(conv<int64>(len(p0))))))", t):
 				n2++
 			case matches("18446744073709551615", t):
